@@ -143,6 +143,47 @@ def build_vector_inputs(cache_dir):
     return inputs
 
 
+def build_biglist_inputs(cache_dir):
+    """long element lists (> 250 elements) that differ in one middle element: key separation must not depend on an
+    abbreviated rendering of the list.  Entry evaluation is stubbed by a cheap geometry-keyed value: the clause concerns
+    the plumbing (keys, paths, pools), which is unchanged by the stub."""
+    setup_path()
+    import hashlib
+    from src.initial_mesh import UnitSquareBoundaryRefined
+    from src.initial_potential import InitialOperator
+    from src.mesh import MeshParametrized
+    from src.parametrization import UnitSquare
+    from src.single_layer import SingleLayerOperator
+    with contextlib.redirect_stdout(io.StringIO()):
+        m = MeshParametrized(UnitSquare())
+        for _ in range(3):
+            m.uniform_refine()
+        for e in list(m.leaf_elements)[:4]:
+            m.refine_space(e)
+        M0 = InitialOperator(bdr_mesh=m, u0=lambda xy: 1 + 0 * xy[0], initial_mesh=UnitSquareBoundaryRefined, cache_dir=cache_dir)
+        SL = SingleLayerOperator(m, cache_dir=cache_dir)
+
+    def val(*es):
+        h = hashlib.sha1(repr([(e.time_interval, e.space_interval) for e in es]).encode()).digest()
+        return int.from_bytes(h[:6], "big") / 2 ** 48
+    M0.linform = lambda e: (val(e), [])
+    causal = lambda te, tr: not te.time_interval[1] <= tr.time_interval[0]
+    SL.bilform = lambda tr, te: val(te, tr) if causal(te, tr) else 0.0      # the stub keeps the causality guard of the pool worker meaningful
+    el = list(m.leaf_elements)
+    A = el[:255]
+    B = list(A)
+    B[130] = el[258]
+    C = list(A)
+    C[7], C[200] = C[200], C[7]          # permutation of A
+    inputs = {}
+    for name, es in (("b1", A), ("b2", B), ("b3", C)):
+        inputs[name] = {"call": (lambda es=es: (lambda mp: M0.linform_vector(elems=es, use_mp=mp)))(), "ref": np.array([val(e) for e in es], dtype=float)}
+    for name, (te, tr) in (("c1", (A[:40], A)), ("c2", (B[:40], B))):
+        inputs[name] = {"call": (lambda te=te, tr=tr: (lambda mp: SL.bilform_matrix(te, tr, use_mp=mp)))(),
+                        "ref": np.array([[val(a, b) if causal(a, b) else 0.0 for b in tr] for a in te], dtype=float)}
+    return inputs
+
+
 def execute(ctx, scripts, inputs, names, small, has_inline, rng, tag):
     """run the scripts on the real code, judge, report"""
     cache_dir = inputs["_dir"]
@@ -241,6 +282,17 @@ def run(prop, tier, seed):
         runs.append(st)
         all_events += ev
         ctx.log("replay %s" % st)
+        # long lists (> 250 elements) differing in one element / permuted: no shared cache entry, every path transparent
+        bdir = os.path.join(tmp, "b")
+        os.makedirs(bdir)
+        bi = build_biglist_inputs(bdir)
+        bi["_dir"] = bdir
+        for names in (["b1", "b2", "b3"], ["c1", "c2"]):
+            script = [[{"ev": "return", "in": n, "mp": False, "w": 1} for n in names] + [{"ev": "return", "in": n, "mp": True, "w": 3} for n in names] +
+                      [{"ev": "delete", "in": names[0]}] + [{"ev": "return", "in": n, "mp": True, "w": 2} for n in reversed(names)]]
+            st, ev = execute(ctx, script, bi, names, set(), False, rng, "biglist")
+            runs.append(st)
+            ctx.log("replay %s" % st)
         # binding self-test: flipping an equality flag / a disk projection must be rejected
         import copy
         a = copy.deepcopy([e for e in all_events[:12]])
